@@ -533,7 +533,7 @@ class Ref:
     pass
 
 
-def enumerate_valid(spec, sem, opts, limit):
+def enumerate_valid(spec, sem, opts, limit, fixed=None):
     fm = fmap(spec)
     T = sem.T
     design = [fm[n] for n in sem.design]
@@ -588,7 +588,12 @@ def enumerate_valid(spec, sem, opts, limit):
             if len(out) > limit:
                 raise RefOverflow()
             return
-        for vals in trial_choices:
+        choices_here = trial_choices
+        if fixed is not None:
+            # membership test of one given sequence: only its own basic-factor values are tried
+            want = tuple(fixed[t][sem.design.index(f['name'])] for f in basics)
+            choices_here = [want] if want in trial_choices else []
+        for vals in choices_here:
             for f, v in zip(basics, vals):
                 seq[f['name']].append(v)
             ok = True
@@ -670,3 +675,45 @@ def solve(spec, limit=200000):
     r.design = sem0.design
     r.T = r.Ts[0] if r.Ts else None
     return r
+
+
+class Checker:
+    """Membership oracle for single sequences (no enumeration of the valid set): a sequence is accepted iff some reading
+    of the documentation accepts it. Used where the valid set is too large to enumerate (soundness-only checks)."""
+    def __init__(self, spec):
+        self.spec = spec
+        self.sems = []
+        self.refused = None
+        self.errors = []
+        for opts in option_sets(spec):
+            sem = compile_block(spec, spec['block'], opts)
+            if sem.refused:
+                self.refused = sem.refused
+                continue
+            if sem.errors:
+                self.errors = sem.errors
+            self.sems.append((sem, opts))
+        self.design = self.sems[0][0].design if self.sems else None
+        self.Ts = sorted(set(sem.T for sem, _ in self.sems))
+        # multiplicity bookkeeping of enumerate_valid raises for partly crossed weighted factors: detect once
+        self.unsupported = None
+        try:
+            for sem, opts in self.sems:
+                if not sem.errors:
+                    enumerate_valid(spec, sem, opts, 10, fixed=())
+        except RefUnsupported as e:
+            self.unsupported = str(e)
+        except Exception:
+            pass
+
+    def valid(self, seq):
+        for sem, opts in self.sems:
+            if sem.errors or len(seq) != sem.T:
+                continue
+            try:
+                out = enumerate_valid(self.spec, sem, opts, 10, fixed=seq)
+            except (IndexError, ValueError, KeyError):
+                continue
+            if tuple(seq) in out:
+                return True
+        return False
